@@ -168,8 +168,14 @@ class ConnectScen(Base):
         self.il, self.ol = self.lay("ilay"), self.lay("olay")
         self.dut = ConnectTrans(self.il, self.ol)
         self.top.add("dut", self.dut)
-        self.callee("m1", self.dut.method1)  # takes il, returns ol
-        self.callee("m2", self.dut.method2)  # takes ol, returns il
+        # optionally a connected method validates its argument (rejects first field == K): the transfer then
+        # happens exactly when both are ready *and* accept what the other one returns
+        self.val = self.cfg.get("val") or [None, None]
+        for name, meth, k in (("m1", self.dut.method1, self.val[0]), ("m2", self.dut.method2, self.val[1])):
+            if k is None or not len(meth.layout_in.members):
+                self.callee(name, meth)  # m1 takes il, returns ol; m2 takes ol, returns il
+            else:
+                self.vcallee(name, meth, k)
         self.targets = ["m1", "m2"]
         self.setup_common()
         return self.top
@@ -185,8 +191,15 @@ class ConnectScen(Base):
     def check(self, cyc, stim, obs):
         e1, e2 = self.readiness_cov(stim, 1)
         d1, d2 = obs["m1.done"], obs["m2.done"]
-        self.expect(d1 == d2 == (e1 & e2), "connect-run-mismatch",
-                    f"ready=({e1},{e2}) but executed=({d1},{d2}): a transfer happens exactly when both can run")
+        ok = 1
+        if self.val[0] is not None and self.il:
+            ok &= int(self.vals(stim, "m2.ret", self.il)[0] != self.val[0])
+        if self.val[1] is not None and self.ol:
+            ok &= int(self.vals(stim, "m1.ret", self.ol)[0] != self.val[1])
+        if not ok and e1 and e2:
+            self.hit("connect_refused_by_validate_arguments")
+        self.expect(d1 == d2 == (e1 & e2 & ok), "connect-run-mismatch",
+                    f"ready=({e1},{e2}) arguments accepted={ok} but executed=({d1},{d2}): a transfer happens exactly when both can run")
         if d1:
             self.hit("transfer")
             self.expect(self.vals(obs, "m1.arg", self.il) == self.vals(stim, "m2.ret", self.il), "data-mismatch",
@@ -381,9 +394,14 @@ class FilterScen(Base):
         if c["default"] is not None:
             self.default = {f: v & mask(w) for (f, w), v in zip(self.ol, c["default"])}
             dflt = dict(self.default)
-        self.dut = MethodFilter(self.il, self.ol, cf, dflt, use_condition=self.uc)
-        self.top.add("dut", self.dut)
-        self.callee("t", self.dut.target)
+        if c.get("factory"):  # built through the documented factory around an existing target method
+            ad = self.callee("t", None, i=self.il, o=self.ol)
+            self.dut = MethodFilter.create(ad.iface, cf, dflt, use_condition=self.uc)
+            self.top.add("dut", self.dut)
+        else:
+            self.dut = MethodFilter(self.il, self.ol, cf, dflt, use_condition=self.uc)
+            self.top.add("dut", self.dut)
+            self.callee("t", self.dut.target)
         self.caller("c", self.dut.method)
         self.targets = ["t"]
         self.setup_common()
@@ -444,8 +462,8 @@ class FilterScen(Base):
 
         at = self.callers["c"]
         ts = [t for t in tm.transactions if any(getattr(mm._body, "owner", None) is at for mm in t._body.method_calls)]
-        if not ts:
-            raise RuntimeError("cannot identify the merged transactions of caller c")
+        if not ts:  # the filter was not built with a condition() block: the caller's own transaction decides
+            return super().post_elab(tm)
         self.add_obs("c.runnable", Cat(t.runnable for t in ts).any())
 
 
@@ -809,6 +827,10 @@ class Prop(PropBase):
         cfg["olay"] = [["r", wr], ["s", ws]]
         cfg["pcall"] = rng.choice([0.5, 0.8, 0.95, 1.0])
         phases = list(PHASES)
+        if kind == "connect" and rng.random() < 0.5:
+            # one or both connected methods validate their argument: 0 (most interesting: the value an argument
+            # has while nothing is assigned to it) or another small value of the first field is rejected
+            cfg["val"] = [rng.choice([None, 0, 0, rng.randint(1, 3)]), rng.choice([None, 0, 0, rng.randint(1, 3)])]
         if kind == "crossbar":
             cfg["n1"], cfg["n2"] = rng.randint(1, 3), rng.randint(1, 3)
             cfg["ilay"][0][1] = max(wa, 6)
@@ -821,6 +843,7 @@ class Prop(PropBase):
             cfg["cond"] = rng.choice(["bit0", "eq2", "lt", "nonzero"])
             cfg["k"] = rng.randint(1, 255)
             cfg["use_condition"] = int(rng.random() < 0.5)
+            cfg["factory"] = int(rng.random() < 0.5)
             cfg["default"] = None if rng.random() < 0.35 else [rng.randint(1, 255), rng.randint(1, 63)]
         elif kind == "product":
             cfg["n"] = rng.randint(1, 4)
